@@ -1,0 +1,104 @@
+//go:build verif
+
+// Contracts for govc (see /verif/DESIGN.md). Comment-only; compiled only with -tags verif.
+
+package baseoutput
+
+//@ property C02 C19
+
+// ---- the upstream connection (trusted interface contract). Ghost: lastack = the ID of the last successful ACK read ("" =
+// "the first of the previously unacknowledged chunks"), ackfresh = an ACK has been read and not yet used for a
+// confirmation, lastsent / sentok = the chunk of the last SendChunk and whether it was completely transmitted.
+// A connection either always designates chunks by ID or never does (noids): fluentd forward / datadog.
+//@ ghost var lastack string
+//@ ghost var ackfresh bool
+//@ ghost var lastsent string
+//@ ghost var sentok bool
+//@ pure func noids(c int) bool
+//@ extern func (c baseoutput.ClientConnection) ReadChunkAck(deadline time.Time) (string, error)
+//@   modifies lastack, ackfresh
+//@   ghostset lastack := result.0
+//@   ghostset ackfresh := result.1 == nil
+//@   ensures result.1 == nil ==> ((len(result.0) == 0) <==> noids(ref(c)))
+//@ extern func (c baseoutput.ClientConnection) SendChunk(chunk base.LogChunk, deadline time.Time) error
+//@   modifies lastsent, sentok
+//@   ghostset lastsent := chunk.ID
+//@   ghostset sentok := result == nil
+//@ extern func (c baseoutput.ClientConnection) SendPing(deadline time.Time) error
+//@   modifies nothing
+//@ extern func (c baseoutput.ClientConnection) Logger() logger.Logger
+//@   modifies nothing
+//@   ensures result != nil
+
+// ---- "reports a chunk as delivered only after the upstream has acknowledged that very chunk": the delivered callback may
+// only be called with an ACK read since the last confirmation (never two confirmations on one ACK, never one without),
+// and with the chunk that ACK designates.
+//@ fieldspec clientSession.onChunkAcked(chunk base.LogChunk)
+//@   requires[only-on-a-fresh-ack] ackfresh
+//@   requires[the-acknowledged-chunk] len(lastack) > 0 ==> key(chunk.ID) == key(lastack)
+//@   modifies ackfresh
+//@   ghostset ackfresh := false
+
+// abortConn (util.RunOnce over conn.Close) and the signal objects only touch their own state
+//@ fieldspec clientSession.abortConn(beforeRunning func())
+//@   modifies nothing
+//@ extern func (s *channels.SignalAwaitable) Signal()
+//@   modifies nothing
+//@ extern func (s *channels.SignalAwaitable) Wait(timeout time.Duration) bool
+//@   modifies nothing
+//@ extern func (s *channels.SignalAwaitable) Channel() <-chan struct{}
+//@   modifies nothing
+//@   ensures result != nil
+//@ extern func (a channels.Awaitable) Channel() <-chan struct{}
+//@   modifies nothing
+//@   ensures result != nil
+
+//@ pure func sessok(s *clientSession) bool := s != nil && s.conn != nil && s.logger != nil && s.ackerChan != nil && s.inputChannel != nil && s.inputClosed != nil
+//@      && s.ackerAbort != nil && s.ackerEnded != nil && s.onChunkAcked != nil && s.abortConn != nil && metricsok(&s.metrics)
+//@ pure func metricsok(m *clientMetrics) bool := m.acknowledgedCountTotal != nil && m.acknowledgedLengthTotal != nil && m.queuedChunksPendingAck != nil && m.queuedChunksLeftover != nil
+//@      && m.nonNetworkErrorsTotal != nil && m.networkErrorsTotal != nil && m.forwardAttemptsTotal != nil && m.forwardedCountTotal != nil && m.forwardedLengthTotal != nil && m.openedSessionsTotal != nil
+//@      && ref(m.forwardedCountTotal) != ref(m.forwardAttemptsTotal) && ref(m.forwardedCountTotal) != ref(m.forwardedLengthTotal) && ref(m.forwardedCountTotal) != ref(m.networkErrorsTotal)
+//@      && ref(m.forwardedCountTotal) != ref(m.nonNetworkErrorsTotal) && ref(m.forwardedCountTotal) != ref(m.queuedChunksPendingAck) && ref(m.forwardedCountTotal) != ref(m.queuedChunksLeftover)
+
+// ---- acknowledger: in ordered mode (no IDs) nothing else is pending when a chunk is taken, so the chunk confirmed on the
+// next ACK is the first - the only - unacknowledged one; in ID mode the chunk confirmed is the pending chunk of that ID
+//@ func (session *clientSession) runAcknowledger()
+//@   requires sessok(session)
+//@   modifies everything
+//@   loop 1: invariant noids(ref(session.conn)) ==> len(pendingChunksByID) == 0
+//@   loop 1: invariant[pending-chunks-are-filed-under-their-own-id] forall k int :: rawhas(pendingChunksByID, k) ==> key(rawget(pendingChunksByID, k).ID) == k
+
+// ---- sending: a chunk is queued for acknowledgement (and counted as forwarded) only after it was completely transmitted
+//@ func (session *clientSession) sendChunk(chunk base.LogChunk) (bool, reconnectPolicy)
+//@   requires sessok(session)
+//@   modifies lastsent, sentok, mval
+//@   ensures[queued-for-ack-only-after-complete-transmission] result.0 ==> sentok && key(lastsent) == key(chunk.ID) && nsent(session.ackerChan) == old(nsent(session.ackerChan)) + 1
+//@   ensures[not-queued-otherwise] !result.0 ==> nsent(session.ackerChan) == old(nsent(session.ackerChan))
+//@   ensures[forwarded-counted-iff-queued] mval[ref(session.metrics.forwardedCountTotal)] == old(mval[ref(session.metrics.forwardedCountTotal)]) + (result.0 ? 1 : 0)
+
+// ---- "every chunk it takes from the queue is resolved exactly once": ghost marks mkL / mkI / mkA = receive count of the
+// leftover channel, receive count of the input channel and send count of the ACK queue when the stage began. At every
+// call of collectLeftovers each chunk taken since then is either queued for ACK or it is the one remembered in lastChunk.
+//@ ghost var mkL int
+//@ ghost var mkI int
+//@ ghost var mkA int
+//@ pure func taken(s *clientSession, prev chan base.LogChunk) int := (prev != nil ? nrecv(prev) - mkL : 0) + nrecv(s.inputChannel) - mkI
+//@ func (session *clientSession) collectLeftovers(maybePreviousLeftovers chan base.LogChunk, ending acknowledgerEnding) chan base.LogChunk
+//@   flag nosafety
+//@   requires sessok(session)
+//@   requires[every-taken-chunk-is-queued-or-remembered] taken(session, maybePreviousLeftovers) == nsent(session.ackerChan) - mkA + (session.lastChunk != nil ? 1 : 0)
+//@   modifies everything
+//@   ensures result != nil
+
+//@ func (session *clientSession) resendLeftovers(leftovers chan base.LogChunk) (chan base.LogChunk, reconnectPolicy)
+//@   requires sessok(session) && leftovers != nil && session.lastChunk == nil && ref(leftovers) != ref(session.inputChannel) && ref(leftovers) != ref(session.ackerChan)
+//@   define   mkL == nrecv(leftovers) && mkI == nrecv(session.inputChannel) && mkA == nsent(session.ackerChan)
+//@   modifies everything
+//@   ensures[nothing-in-flight-when-the-stage-completes] result.0 == nil ==> session.lastChunk == nil
+//@   loop 1: invariant sessok(session) && session.lastChunk == nil && nrecv(leftovers) - mkL == nsent(session.ackerChan) - mkA && nrecv(session.inputChannel) == mkI
+
+//@ func (session *clientSession) processInput(maxDuration time.Duration) (chan base.LogChunk, reconnectPolicy)
+//@   requires sessok(session) && session.lastChunk == nil && ref(session.inputChannel) != ref(session.ackerChan)
+//@   define   mkI == nrecv(session.inputChannel) && mkA == nsent(session.ackerChan)
+//@   modifies everything
+//@   loop 1: invariant sessok(session) && session.lastChunk == nil && nrecv(session.inputChannel) - mkI == nsent(session.ackerChan) - mkA
